@@ -8,7 +8,10 @@
              columns of a wide character) Ignored; a changed cell erases its
              old image, marks what the old cell occupied Damaged, records the
              new image and marks what the new cell occupies Ignored.  Marks are
-             written in scan order, last writer wins.
+             written in scan order, last writer wins.  A character whose own cell
+             is already Ignored is hidden: it marks nothing, except that the
+             columns behind it are Damaged (where not Ignored) when the wide
+             character covering it has just been repainted.
      pass 2  per row, left to right: skip cells that are not Damaged and are
              Ignored or unchanged, cells that are not characters, zero-width
              characters; otherwise Face (if different from the tracked face),
@@ -19,6 +22,11 @@
      pass 3  every recorded image: Face, erase the rows of its rectangle,
              CursorTo, Image.
      then    back := front (glyphs resolved), front := default, marks := Empty.
+   (In the code the marks are local to frame(): filled at its start with Damaged when the
+   force_repaint flag is set by clear()/new(clear=true), Empty otherwise; the flag is cleared when the
+   frame is complete.  The model keeps the equivalent grid: all Damaged after rclear / rnew true, all
+   Empty after a frame.  A frame() that fails half-way — Terminal::execute returning an error — is
+   outside the model: the terminal then has not executed what was issued.)
 
    Pass 2 is written as the composition of the diff proper ([paints_row]: what
    is painted where) and the cursor/face tracking ([emit]); their composition
@@ -51,17 +59,30 @@ Record p1 := mkp1 {
   p1_marks : grid mark;
   p1_front : grid cell;
   p1_cmds : list cmd;                          (* reversed *)
-  p1_imgs : list (nat * nat * face * N) }.     (* reversed *)
+  p1_imgs : list (nat * nat * face * N);       (* reversed *)
+  p1_recov : option (nat * nat) }.             (* the cell a repainted wide character has just covered *)
 
 Definition fill_extent (o : oracle) (m : grid mark) (x : cell) (r c : nat) (v : mark) : grid mark :=
   let '(r0, r1, c0, c1) := extent o x r c in gfill m r0 r1 c0 c1 v.
 
+(* Damaged, except where the mark is Ignored *)
+Definition damage_mark (v : mark) : mark := match v with MIgnored => MIgnored | _ => MDamaged end.
+Definition damage_extent (o : oracle) (m : grid mark) (x : cell) (r c : nat) : grid mark :=
+  let '(r0, r1, c0, c1) := extent o x r c in
+  mapi (fun r' row => if in_range r0 r1 r'
+                      then mapi (fun c' v => if in_range c0 c1 c' then damage_mark v else v) row
+                      else row) m.
+
 Definition is_damaged (m : option mark) : bool :=
   match m with Some MDamaged => true | _ => false end.
-
 Definition is_ignored (m : option mark) : bool :=
   match m with Some MIgnored => true | _ => false end.
 Definition is_char (x : cell) : bool := match ckind x with KChar _ => true | _ => false end.
+(* a character wider than one column *)
+Definition covers_next (o : oracle) (x : cell) : bool :=
+  match ckind x with KChar ch => 1 <? cw o ch | _ => false end.
+Definition pos_is (p : option (nat * nat)) (r c : nat) : bool :=
+  match p with Some (r', c') => Nat.eqb r' r && Nat.eqb c' c | None => false end.
 
 Definition pass1_step (o : oracle) (old_g : grid cell) (st : p1) (p : nat * nat) : p1 :=
   let '(r, c) := p in
@@ -70,28 +91,33 @@ Definition pass1_step (o : oracle) (old_g : grid cell) (st : p1) (p : nat * nat)
       let new := resolve o new0 in
       let front' := gset (p1_front st) r c new in
       let mk := gget (p1_marks st) r c in
-      (* a character that is itself covered does not own the columns behind it *)
-      let new_mark := if is_ignored mk && is_char new then MDamaged else MIgnored in
+      (* a character that is itself covered (behind a wide character, under an image) is not shown
+         and does not own the columns behind it; they are repainted only when the character covering
+         it has just been repainted *)
+      let hid := is_ignored mk && is_char new in
+      let anew := pos_is (p1_recov st) r c in
+      let mark_new := fun m => if hid then (if anew then damage_extent o m new r c else m)
+                               else fill_extent o m new r c MIgnored in
       if cell_eqb old new && negb (is_damaged mk)
-      then mkp1 (fill_extent o (p1_marks st) new r c new_mark) front' (p1_cmds st) (p1_imgs st)
+      then mkp1 (mark_new (p1_marks st)) front' (p1_cmds st) (p1_imgs st) None
       else
         let m1 := fill_extent o (p1_marks st) old r c MDamaged in
         let cmds1 := match ckind old with
                      | KImg i => CImageErase i (Some (r, c)) :: p1_cmds st
                      | _ => p1_cmds st
                      end in
-        let m2 := fill_extent o m1 new r c new_mark in
         let imgs := match ckind new with
                     | KImg i => (r, c, cface new, i) :: p1_imgs st
                     | _ => p1_imgs st
                     end in
-        mkp1 m2 front' cmds1 imgs
+        mkp1 (mark_new m1) front' cmds1 imgs
+             (if negb hid && covers_next o new then Some (r, S c) else None)
   | _, _ => st
   end.
 
 Definition pass1 (o : oracle) (s : rstate) : p1 :=
   fold_left (pass1_step o (back s)) (all_pos (rh s) (rw s))
-            (mkp1 (marks s) (front s) [] []).
+            (mkp1 (marks s) (front s) [] [] None).
 
 (* ---------- pass 2: what is painted ---------- *)
 Inductive paint :=
@@ -193,11 +219,12 @@ Definition erase_images_row (r : nat) (cells : list cell) : list cmd :=
                            | _ => []
                            end) cells).
 
-(* clear(): erase the images the terminal shows, forget the terminal state (back buffer) and mark
-   everything Damaged; what was already drawn into the front buffer stays *)
+(* clear(): erase the images the terminal shows, forget the terminal state (back buffer), reset the
+   surface being drawn and mark everything Damaged (it is to be called before the next frame is
+   drawn: run_render does so, right after the poll) *)
 Definition rclear (s : rstate) : list cmd * rstate :=
   (concat (mapi erase_images_row (back s)),
-   mkrstate (rh s) (rw s) (front s) (gmake (rh s) (rw s) cell_default)
+   mkrstate (rh s) (rw s) (gmake (rh s) (rw s) cell_default) (gmake (rh s) (rw s) cell_default)
             (gmake (rh s) (rw s) MDamaged)).
 
 (* renderer.surface().clear(): the application dropped the frame it was drawing *)
